@@ -8,22 +8,113 @@ from .interp import MergeFail
 
 
 def seq_of_values(I, base, val, n, kind='list'):
-    """Fresh sequence of length n whose element shape follows `val` (scalar or fixed tuple of scalars)."""
+    """Fresh sequence of length n whose element shape follows `val`."""
+    from .values import shape_of, shape_sorts
     if is_scalar(val):
         cols = [z3.Array(I.reg.fresh(base), z3.IntSort(), sort_of_value(val))]
         return SymSeq(n, cols, None, kind, base)
-    if isinstance(val, Opaque):
-        return SymSeq(n, [z3.Array(I.reg.fresh(base), z3.IntSort(), val.term.sort())], None, kind, base)
-    if isinstance(val, (tuple, list)) and all(is_scalar(x) for x in val):
+    if isinstance(val, RowVal) and all(is_scalar(x) for x in val):
         cols = [z3.Array(I.reg.fresh(base + ".c%d" % i), z3.IntSort(), sort_of_value(x)) for i, x in enumerate(val)]
-        return SymSeq(n, cols, len(val), 'ndarray' if isinstance(val, RowVal) else kind, base)
-    raise OutOfSubset("sequence of %r" % (val,))
+        return SymSeq(n, cols, len(val), 'ndarray', base)
+    shape = shape_of(val)
+    sorts = shape_sorts(shape)
+    cols = [z3.Array(I.reg.fresh(base + ".c%d" % i), z3.IntSort(), s_) for i, s_ in enumerate(sorts)]
+    out = SymSeq(n, cols, len(cols), kind, base)
+    if not (shape[0] == 't' and all(sh[0] == 's' for sh in shape[1])):
+        out.shape = shape
+    else:
+        out.shape = shape          # tuples are rebuilt as tuples
+    return out
+
+
+class StarArg:
+    def __init__(self, seq):
+        self.seq = seq
+
+
+class ZipStar:
+    """zip(*rows) for a symbolic list of fixed-shape rows: the transposition (one sequence per column)."""
+
+    def __init__(self, seq):
+        self.seq = seq
+
+    def columns(self):
+        from .values import shape_sorts
+        seq = self.seq
+        shape = seq.shape
+        if shape is None:
+            return [SymSeq(seq.length, [c], None, 'tuple', (seq.name or 'col') + '_%d' % i) for i, c in enumerate(seq.cols)]
+        if shape[0] not in ('t', 'l', 'r'):
+            raise OutOfSubset("zip(*rows) of non-tuple rows")
+        out, k = [], 0
+        for i, sh in enumerate(shape[1]):
+            w = len(shape_sorts(sh))
+            sub = SymSeq(seq.length, seq.cols[k:k + w], None if sh[0] in ('s', 'o') else w, 'tuple', (seq.name or 'col') + '_%d' % i)
+            if sh[0] not in ('s', 'o'):
+                sub.shape = sh
+            out.append(sub)
+            k += w
+        return out
+
+
+class SymMap:
+    """dict built by a comprehension over a symbolic sequence: keys[k] -> vals[k], last occurrence wins."""
+
+    def __init__(self, I, keys, vals):
+        self.keys, self.vals = keys, vals
+        srt = keys.elem_sort()
+        self.mem = z3.Function(I.reg.fresh('map_has'), srt, z3.BoolSort())
+        self.wit = z3.Function(I.reg.fresh('map_pos'), srt, z3.IntSort())
+        j, j2 = z3.Int(I.reg.fresh('j')), z3.Int(I.reg.fresh('j'))
+        x = z3.Const(I.reg.fresh('x'), srt)
+        a = keys.cols[0]
+        I.assume(z3.ForAll([j], z3.Implies(z3.And(j >= 0, j < keys.length), z3.And(self.mem(z3.Select(a, j)), self.wit(z3.Select(a, j)) >= j)),
+                           patterns=[z3.Select(a, j)]))
+        I.assume(z3.ForAll([x], z3.Implies(self.mem(x), z3.And(self.wit(x) >= 0, self.wit(x) < keys.length, z3.Select(a, self.wit(x)) == x)),
+                           patterns=[self.mem(x)]))
+
+
+def dict_comprehension(ctx, e, sc):
+    I = ctx.I
+    if len(e.generators) != 1 or sc.gen_index != 0 or e.generators[0].ifs:
+        raise OutOfSubset("dict comprehension over symbolic data: %s" % ast.unparse(e))
+    g = e.generators[0]
+    n, elem = I.lib.symbolic_iter(ctx, sc.iterable)
+    k = z3.Int(I.reg.fresh('ck'))
+    guard = z3.And(k >= 0, k < n)
+    pc0 = len(I.pc)
+    I.merge_depth += 1
+    try:
+        I.pc.append(guard)
+        ctx.assign(g.target, elem(k))
+        key, val = ctx.eval(e.key), ctx.eval(e.value)
+    finally:
+        del I.pc[pc0:]
+        I.merge_depth -= 1
+    if not (is_scalar(key) and is_scalar(val)):
+        raise OutOfSubset("dict comprehension with non-scalar key / value")
+    keys = SymSeq(n, [z3.Array(I.reg.fresh('mapkeys'), z3.IntSort(), sort_of_value(key))], None, 'list', 'mapkeys')
+    vals = SymSeq(n, [z3.Array(I.reg.fresh('mapvals'), z3.IntSort(), sort_of_value(val))], None, 'list', 'mapvals')
+    for seq, v in ((keys, key), (vals, val)):
+        I.assume(z3.ForAll([k], z3.Implies(guard, z3.Select(seq.cols[0], k) == to_z3(v, sort=seq.elem_sort())), patterns=[z3.Select(seq.cols[0], k)]))
+    return SymMap(I, keys, vals)
+
+
+def symmap_getitem(ctx, m, idx):
+    I = ctx.I
+    if idx[0] != 'index':
+        raise OutOfSubset("dict slice")
+    x = to_z3(idx[1], sort=m.keys.elem_sort())
+    I.oblige("%s/safety/key-present" % ctx.speckey, m.mem(x), 'safety')
+    return Sym(z3.Select(m.vals.cols[0], m.wit(x)))
 
 
 def comprehension(ctx, e, sc):
     """[elt for target in <symbolic iterable>]  ->  fresh sequence with a pointwise axiom."""
     I = ctx.I
-    if isinstance(e, ast.DictComp) or len(e.generators) != 1 or sc.gen_index != 0:
+    if isinstance(e, ast.DictComp):
+        return dict_comprehension(ctx, e, sc)
+    if len(e.generators) != 1 or sc.gen_index != 0:
         raise OutOfSubset("nested / dict comprehension over symbolic data: %s" % ast.unparse(e))
     g = e.generators[0]
     if g.ifs:
@@ -48,8 +139,13 @@ def comprehension(ctx, e, sc):
         del I.pc[pc0:]
         I.merge_depth -= 1
     out = seq_of_values(I, 'comp', val, n)
-    vals = list(val) if out.width is not None else [val]
-    body = z3.And(*[z3.Select(c, k) == (v.term if isinstance(v, Opaque) else to_z3(v, sort=c.range())) for c, v in zip(out.cols, vals)])
+    if out.shape is not None:
+        from .values import flatten
+        flat = flatten(val, out.shape)
+    else:
+        vals = list(val) if out.width is not None else [val]
+        flat = [(v.term if isinstance(v, Opaque) else to_z3(v, sort=c.range())) for c, v in zip(out.cols, vals)]
+    body = z3.And(*[z3.Select(c, k) == x for c, x in zip(out.cols, flat)])
     I.assume(z3.ForAll([k], z3.Implies(guard, body), patterns=[z3.Select(out.cols[0], k)]))
     for x in extra:
         I.assume(z3.ForAll([k], z3.Implies(guard, x), patterns=[z3.Select(out.cols[0], k)]))
@@ -71,6 +167,7 @@ def list_of_lazy(ctx, v):
 
 
 def install(I):
+    I.models.setdefault('getitem:SymMap', symmap_getitem)
     I.models.setdefault('comprehension', comprehension)
     I.models.setdefault('list.fallback', list_of_lazy)
 
